@@ -226,7 +226,7 @@ def build_harness(timeout=1200):
         except Exception as ex:
             raise Broken("tablegen (harness view of the ABI tables)", str(ex))
         rc, out = sh(["cargo", "build", "--release", "--offline", "--quiet"], timeout,
-                     cwd=os.path.join(VERIF, "harness"))
+                     cwd=os.path.join(VERIF, "harness"), env={"CARGO_TARGET_DIR": os.path.join(BUILD, "cargo")})
         if rc != 0:
             raise Broken("harness build against /repo (cargo)", out[-4000:])
 
